@@ -48,6 +48,7 @@ GLOBAL_RULES = [
     # rule 4: panics are obligations
     ("panic.assert", r"\b(?:debug_)?assert!\(", r"assert("),
     ("panic.unreachable", r"\bunreachable!\(\)", r"vpanic()"),
+    ("panic.panic_stmt", r"\bpanic!\((\"[^\"]*\")\);", r"vpanic::<()>();"),
     ("panic.panic", r"\bpanic!\((\"[^\"]*\")\)", r"vpanic()"),
 ]
 
